@@ -4,6 +4,8 @@ import signal
 from .. import dyn, gen, msgev
 from ..dyn import F
 
+from ..common import MachineryError
+
 LEVEL = "fault_enumeration"
 
 
@@ -151,13 +153,22 @@ ALPHA = [0x00, 0x01, 0x02, 0x05, 0x08, 0x0A, 0x0B, 0x0C, 0x0D, 0x0E, 0x0F, 0x10,
 
 def run(ctx):
     quick = ctx.tier == "quick"
-    ctx.rule = ("decoder inputs: (i) valid Wide-family encodings x every truncation point x single-byte substitution of each tag/length byte "
+    ctx.rule = ("the ideal reader model-checked on every byte string up to length 5 (quick) / 6 over a 12-symbol alphabet (MC_Wire: Total, Lossless, CutIsRejected, RejectedStays, AcceptedPrefixStable); decoder inputs: (i) valid Wide-family encodings x every truncation point x single-byte substitution of each tag/length byte "
                 "from {00,07,0B,0C,0E,80,FF,01,7F} x every wire-type flip of each tag; (ii) all byte strings up to length 3 (quick) / 4 "
                 "(thorough, sampled) over a 24-symbol tag/length/payload alphabet for schema M5; (iii) seeded random byte strings; "
                 "non-trivial = not a valid encoding accepted by the spec decoder without unknown fields; distinct by (type, bytes)")
     ctx.assumptions = ["a parse that does not finish within 5 s is counted as non-termination",
                        "the reference decoder's accept/reject decision is recorded per input (informational)",
                        "SpecDecode (spec/Codec.tla, Wire.tla) is the ideal decoder; rejecting any input is always allowed"]
+    # (0) the criteria on the specification itself: the ideal reader explored on every byte string up to a bound
+    alpha = "{0, 1, 2, 8, 9, 10, 11, 12, 13, 14, 128, 255}"
+    cfg = ("SPECIFICATION Spec\nCONSTANTS\n  Alpha = %s\n  MaxLen = %d\nINVARIANT Total\nINVARIANT Lossless\nINVARIANT CutIsRejected\n"
+           "PROPERTY RejectedStays\nPROPERTY AcceptedPrefixStable\nCHECK_DEADLOCK FALSE\n" % (alpha, 5 if quick else 6))
+    ctx.mc("MC_Wire", cfg, name="MC_Wire", expect_actions=("Grow",), timeout=3000)
+    r = ctx.mc("MC_Wire", "SPECIFICATION Spec\nCONSTANTS\n  Alpha = {1, 2, 8, 10}\n  MaxLen = 5\nINVARIANT NoRichInput\nCHECK_DEADLOCK FALSE\n",
+               name="MC_Wire_vacuity", allow_violation=True, coverage=False)
+    if r.violated != "NoRichInput":
+        raise MachineryError("vacuity control: MC_Wire explores no accepted multi-field input")
     ins = fault_inputs(ctx, quick)
     import itertools
     for n in range(1, 4):
